@@ -4,7 +4,7 @@ use honeycomb_core::{
         CMap2, DartIdType, EdgeIdType, LinkError, NULL_DART_ID, NULL_EDGE_ID, NULL_VERTEX_ID,
         SewError, VertexIdType,
     },
-    geometry::CoordsFloat,
+    geometry::{CoordsFloat, Vertex2},
     stm::{Transaction, TransactionClosureResult, abort, retry, try_or_coerce},
 };
 
@@ -202,6 +202,14 @@ fn collapse_edge_to_midpoint<T: CoordsFloat>(
     (b0l, l, b1l): (DartIdType, DartIdType, DartIdType),
     (b0r, r, b1r): (DartIdType, DartIdType, DartIdType),
 ) -> TransactionClosureResult<VertexIdType, SewError> {
+    // the end points are merged by several successive sews, each averaging the coordinates;
+    // read both end points first and write their midpoint once the collapse is done
+    let (l_vid, r_vid) = (map.vertex_id_transac(t, l)?, map.vertex_id_transac(t, b1l)?);
+    let midpoint = match (map.read_vertex(t, l_vid)?, map.read_vertex(t, r_vid)?) {
+        (Some(v1), Some(v2)) => Some(Vertex2::average(&v1, &v2)),
+        _ => None,
+    };
+
     if r != NULL_DART_ID {
         map.unsew::<2>(t, r)?;
         collapse_halfcell_to_midpoint(t, map, (b0r, r, b1r))?;
@@ -210,14 +218,22 @@ fn collapse_edge_to_midpoint<T: CoordsFloat>(
     let b2b0l = map.beta_transac::<2>(t, b0l)?; // save this before left cell collapse
     collapse_halfcell_to_midpoint(t, map, (b0l, l, b1l))?;
 
-    Ok(if b2b0l != NULL_DART_ID {
+    let new_vid = if b2b0l != NULL_DART_ID {
         map.vertex_id_transac(t, b2b0l)?
     } else if r != NULL_DART_ID {
         map.vertex_id_transac(t, b1r)?
     } else {
         // this can happen from a valid configuration, so we handle it
         NULL_VERTEX_ID
-    })
+    };
+
+    if new_vid != NULL_VERTEX_ID {
+        if let Some(v) = midpoint {
+            map.write_vertex(t, new_vid, v)?;
+        }
+    }
+
+    Ok(new_vid)
 }
 
 fn collapse_halfcell_to_midpoint<T: CoordsFloat>(
